@@ -19,6 +19,8 @@ BASES = {
     "set-p4": pickle.dumps({1}, protocol=4),
     "sg-p4": pickle.dumps(__import__("collections").OrderedDict(), protocol=4),
     "strings": asm(sbu("os"), sbu("system"), "POP", "POP", "NONE", "STOP"),
+    # one opcode whose encoding is larger than any plausible I/O buffer, between small ones
+    "big-bytes": asm(("PROTO", 3), ("BINBYTES", b"x" * 70000), ("BINPUT", 0), "STOP"),
 }
 
 
@@ -71,7 +73,7 @@ def build_ops(tier, full=True):
             ("clear_tail",)]
     ops += [("insert_python", "1+1", True, False), ("insert_python", "1+1", False, False), ("insert_python", "1+1", False, True),
             ("append_python", "2"), ("insert_magic_int", 7), ("insert_python_obj", 0), ("insert_python_obj", -1), ("insert_python_exec", "pass")]
-    ops += [("read", "ast"), ("read", "props"), ("read", "sev"), ("read", "dumps")]
+    ops += [("read", "ast"), ("read", "props"), ("read", "sev"), ("read", "dumps"), ("read", "interp")]
     return tuple(ops)
 
 
@@ -160,7 +162,17 @@ def do_edit(p, op, model=None):
     elif k == "insert_python_obj":
         p.insert_python_obj(op[1], [1, "a"])
     elif k == "read":
-        if op[1] == "dumps":
+        if op[1] == "interp":
+            # a caller's own interpreter run, with its own variable numbering: reads the pickle, must not touch its views
+            import fickling.fickle as _fk
+
+            try:
+                _fk.Interpreter(p, first_variable_id=7, result_variable="result1").to_ast()
+            except RecursionError:
+                pass
+            except Exception:  # noqa: BLE001
+                pass
+        elif op[1] == "dumps":
             p.dumps()
             import io as _io
 
@@ -201,6 +213,15 @@ def views(p, only=None):
     guard("sev", lambda: (lambda r: (r.severity.name, frozenset((x.analysis_name, x.message) for x in r.results)))(check_safety(p)))
     if not only:
         guard("dumps", lambda: p.dumps())
+
+        def _dump():
+            import io as _io
+
+            b = _io.BytesIO()
+            p.dump(b)
+            return b.getvalue()
+
+        guard("dump", _dump)
     return out
 
 
@@ -257,6 +278,8 @@ class Edits(e2.System):
                 probs.append((f"C14|stale-{name}|after-{kind}",
                               f"view {name} of the edited object differs from a fresh Pickled with the same opcodes "
                               f"({repr(a[name])[:120]} vs {repr(b[name])[:120]})"))
+        if a["dump"] != a["dumps"]:
+            probs.append((f"C14|dump-vs-dumps|after-{kind}", "dump(file) writes other bytes than dumps() returns"))
         if a["dumps"] != want_dumps:
             probs.append((f"C14|dumps-not-concat|after-{kind}", "dumps() is not the concatenation of the opcodes' encodings"))
         if len(p) != len(ops):
@@ -310,11 +333,11 @@ def _run_root_inner(args, rep):
 def check(tier):
     rep = Report(PROP, tier)
     depth = 4 if tier == "thorough" else 3
-    names = list(BASES) if tier == "thorough" else ["list-p2", "call-p0", "none", "dict-p4", "sg-p4", "strings"]
+    names = list(BASES) if tier == "thorough" else ["list-p2", "call-p0", "none", "dict-p4", "sg-p4", "strings", "big-bytes"]
     full_ops, core_ops = build_ops(tier, True), build_ops(tier, False)
     # pass 1: the full operation menu one level shallower; pass 2: the core menu to the full depth
     tasks = [(n, tier, depth - 1, None, True) for n in names] + [(n, tier, depth - 1, op, True) for n in names for op in full_ops]
-    deep_names = names if tier == "quick" else ["list-p2", "call-p0", "dict-p4", "sg-p4"]
+    deep_names = [n for n in names if n != "big-bytes"] if tier == "quick" else ["list-p2", "call-p0", "dict-p4", "sg-p4"]
     tasks += [(n, tier, depth, op, False) for n in deep_names for op in core_ops]
     from .. import par
 
